@@ -292,7 +292,7 @@ impl C19 {
         // 2. the CLI against an identical server
         let mut r2 = base.clone();
         let Some(live) = start_server(id, &mut r2, stray) else { return cx.inconclusive("cannot start loopback server") };
-        let mut cmd = std::process::Command::new(cli());
+        let mut cmd = crate::core::framework::wrapped_command(&cli());
         cmd.args(["query", "-g", id, "-i", "127.0.0.1", "-p", &live.port().to_string(), "-f", fmt, "-o", mode, "--read-timeout", "2", "--write-timeout", "2", "--connect-timeout", "2"]);
         let out = proc::run(cmd, Duration::from_secs(30));
         drop(live);
@@ -308,6 +308,10 @@ impl C19 {
         let detail = |what: String| json!({"what": what, "case": label, "stray_datagram": stray, "exit": out.code, "stdout": stdout.chars().take(1500).collect::<String>(), "stderr": stderr.chars().take(600).collect::<String>(), "expected(lib)": expected.to_string().chars().take(1500).collect::<String>()});
         if out.code == Some(101) || stderr.contains("panicked at") {
             cx.violation(format!("C19 cli-panic format={fmt} mode={mode} family={fam}"), || detail("panic".into()));
+            return;
+        }
+        if out.code == Some(97) && std::env::var("VERIF_CLI_WRAP").is_ok() {
+            cx.violation(format!("C19 memcheck-report-in-cli family={fam}"), || detail("valgrind memcheck reported an error in the gamedig_cli process".into()));
             return;
         }
         if out.code != Some(0) {
@@ -444,7 +448,7 @@ impl C19 {
             10 => ("bad-gather-toggle", vec!["query".into(), "-g".into(), "teamfortress2".into(), "-i".into(), "127.0.0.1".into(), "--gather-players".into(), "sometimes".into()]),
             _ => ("missing-ip", vec!["query".into(), "-g".into(), "q3a".into()]),
         };
-        let mut cmd = std::process::Command::new(cli());
+        let mut cmd = crate::core::framework::wrapped_command(&cli());
         cmd.args(&args);
         let out = proc::run(cmd, Duration::from_secs(20));
         drop(silent);
@@ -472,6 +476,14 @@ impl C19 {
 
 impl Check for C19 {
     fn id(&self) -> &'static str { "C19" }
+    fn memcheck_plan(&self, tier: Tier) -> Option<(crate::core::framework::MemMode, Vec<(u64, u64)>)> {
+        if tier != Tier::Thorough {
+            return None;
+        }
+        let total = self.total_cases(tier);
+        let n = 12u64.min(total / 16);
+        Some((crate::core::framework::MemMode::Cli, (0 .. 16).map(|i| (i * (total / 16), n)).collect()))
+    }
     fn rule(&self) -> String {
         "the gamedig_cli binary built from the working tree is run as a subprocess against real loopback servers speaking the reference encodings, for 20 games covering every protocol family x 6 output formats x 2 output modes, with server-supplied strings from hostile classes (markup, control characters, non-ASCII, rule keys that are not XML names, numeric extremes). Oracle: exit 0; stdout is exactly one document; JSON parses; XML passes a strict well-formedness checker (declared version's character rules, Name production, balanced tags, legal references); BSON hex/base64 decodes to exactly one document; debug output non-empty; the decoded document equals serde_json of as_json()/as_original() of the library's own answer to an identical server (numbers by value; XML by its multiset of leaf texts). 12 kinds of invalid invocation (unknown game, unresolvable host, silent server, closed port, bad flag values, zero/huge timeouts, missing argument) must exit non-zero with a message and without a panic. non-trivial = a run whose document was decoded and compared (or a clean error); distinct by (game, format, mode, stdout)".into()
     }
